@@ -54,6 +54,8 @@ def body(case):
         if not conc and len(parts) >= 2 and len(repr(parts)) % 2:
             # the same (non-concrete) path put together with the `/` operator: path / part, or path / path
             k = 1 + len(repr(parts)) % (len(parts) - 1)
+            if all(isinstance(x, Prim) for x in parts[:-1]) and isinstance(parts[-1], Part):
+                k = len(parts) - 1  # a concrete left side and one part on the right
             d_ = build.ns().d
             left = d_.DataPath(*[build.build_part(x) for x in parts[:k]])
             if len(parts) - k == 1 and isinstance(parts[k], Part):
